@@ -79,6 +79,9 @@ pub struct SrcStats {
     pub read_bytes: Cell<u64>,
     /// lowest offset touched by a read since the last reset
     pub min_read_off: Cell<u64>,
+    /// start offsets of the reads since the last reset (a block load begins with a read at the
+    /// block's file offset)
+    pub read_starts: std::cell::RefCell<Vec<u64>>,
 }
 
 impl SrcStats {
@@ -88,6 +91,12 @@ impl SrcStats {
         self.reads.set(0);
         self.read_bytes.set(0);
         self.min_read_off.set(u64::MAX);
+        self.read_starts.borrow_mut().clear();
+    }
+    /// number of block loads since the last reset: reads that start at the file offset of a block
+    /// (its length prefix). Extra seeks that read nothing are not loads.
+    pub fn block_loads(&self, block_offsets: &std::collections::HashSet<u64>) -> u64 {
+        self.read_starts.borrow().iter().filter(|p| block_offsets.contains(p)).count() as u64
     }
 }
 
@@ -110,6 +119,9 @@ impl Read for CountSrc<'_> {
         s.read_bytes.set(s.read_bytes.get() + n as u64);
         if n > 0 && (pos as u64) < s.min_read_off.get() {
             s.min_read_off.set(pos as u64);
+        }
+        if n > 0 {
+            s.read_starts.borrow_mut().push(pos as u64);
         }
         Ok(n)
     }
@@ -300,8 +312,7 @@ pub fn bfs_file(
     let ops = alphabet(&model, &probes);
     let levels = spec.cfg.index_levels as u64;
     let load_bound = 2 * (levels + 2);
-    // each block load reads an 8-byte length and the stored block
-    let byte_bound = load_bound * (8 + crate::files::max_stored_block(bytes));
+    let block_offsets = crate::files::block_offsets(bytes);
 
     // map block content hash -> true offset (for the stale statistics)
     let mut true_off: HashMap<u64, u64> = HashMap::new();
@@ -394,7 +405,7 @@ pub fn bfs_file(
             stats.reset();
             let got = apply(&mut c, op);
             transitions += 1;
-            let loads = stats.abs_seeks.get();
+            let loads = stats.block_loads(&block_offsets);
             if loads > max_loads {
                 max_loads = loads;
             }
@@ -443,14 +454,6 @@ pub fn bfs_file(
                     bad = Some(format!("{} on a clone changed the original cursor", op.brief()));
                     kind = "clone";
                 }
-            }
-            if bad.is_none() && opt.check_loads && stats.read_bytes.get() > byte_bound {
-                bad = Some(format!(
-                    "{} read {} bytes, more than 2*(levels+2) = {load_bound} blocks of the largest stored size can account for ({byte_bound})",
-                    op.brief(),
-                    stats.read_bytes.get()
-                ));
-                kind = "bytes";
             }
             if bad.is_none() && opt.check_loads && loads > load_bound {
                 bad = Some(format!(
@@ -521,7 +524,7 @@ pub fn replay_history(spec: &FileSpec, ops: &[Op], prop: &str) -> Result<String,
             return Err(format!("{log}step {i}: {} on a clone changed the original cursor", op.brief()));
         }
         c = next;
-        let loads = stats.abs_seeks.get();
+        let loads = stats.block_loads(&crate::files::block_offsets(&bytes));
         let (want, mut npos) = model_step(&model, pos, op);
         let unspecified = want.is_none() && !matches!(op, Op::Reset);
         if unspecified {
